@@ -1492,7 +1492,9 @@ def get_item(self, st, base, idx, node):
             return [(st, "val", Top("dict[]", o.open))]
         if o.kind == "list":
             if o.items is not None:
-                if isinstance(idx, int) and not isinstance(idx, bool):
+                if isinstance(idx, bool):
+                    idx = int(idx)          # seq[True] is seq[1]
+                if isinstance(idx, int):
                     if -len(o.items) <= idx < len(o.items):
                         return [(st, "val", o.items[idx])]
                     return self.raise_exc(st, "IndexError", node, "index", "index %d of list of %d" % (idx, len(o.items)))
@@ -1524,7 +1526,9 @@ def get_item(self, st, base, idx, node):
             return self.stubs[key](self, st, [base, idx], {}, node)
         return [(st, "val", Top("obj[]", o.open))]
     if isinstance(base, (tuple, str)):
-        if isinstance(idx, int) and not isinstance(idx, bool):
+        if isinstance(idx, bool):
+            idx = int(idx)
+        if isinstance(idx, int):
             if -len(base) <= idx < len(base):
                 return [(st, "val", base[idx])]
             return self.raise_exc(st, "IndexError", node, "index", "index %d out of range" % idx)
